@@ -175,14 +175,24 @@ class H2Protocol:
         # This should be run in a seperate task to the rest of this
         # class. This allows it seperately choose when to send,
         # crucially in what order.
-        while not self.closed:
-            try:
-                stream_id = next(self.priority)
-            except priority.DeadlockError:
-                await self.has_data.wait()
-                await self.has_data.clear()
-            else:
-                await self._send_data(stream_id)
+        try:
+            while not self.closed:
+                try:
+                    stream_id = next(self.priority)
+                except priority.DeadlockError:
+                    await self.has_data.wait()
+                    await self.has_data.clear()
+                else:
+                    await self._send_data(stream_id)
+        finally:
+            # However this task ends (the connection has closed, or
+            # it has been cancelled with the connection's task
+            # group) nothing more will be sent: release any sender
+            # waiting on flow control or for its stream to end,
+            # otherwise it waits forever and keeps the connection's
+            # handler alive.
+            for stream_buffer in self.stream_buffers.values():
+                await stream_buffer.close()
 
     async def _send_data(self, stream_id: int) -> None:
         try:
